@@ -10,6 +10,9 @@ Everything the theorems of `Props/C02Session`, `C02Dissect`, `C02Crypto`, `C02He
   * `quic_out_bytes_from_frames`, `quic_out_addressed` — the exported UDP payload bytes are exactly the data of the
     exported frames of `output_buffer`, and every exported frame is addressed with the connection's endpoints;
   * `handleRecord_err_indep`, `initial_keys_never_raise`, `key_update_never_raises` — the adapters' side conditions;
+  * `after_tls_hp_exact`, `after_tls_hp_unchanged`, `decryptPacket_keeps`, `feedPre_verOk`, `handleTurn_verOk` — the
+    header-protection keys handed to the dissector (adapter field `Tls.hp`) come from the same `dev_quic_keys` result
+    as the packet keys in the decryptors;
   * the TLS-parser hypotheses of `C02Session.one_rtt_exact` for the concrete parser: `TlsQuiet` / `TlsNoRaise` quantify
     over ALL parser states and ALL 1-RTT CRYPTO frames and are FALSE for `QuicTlsSession` as written
     (`tls_quiet_rtt1_counterexample`: a 1-RTT CRYPTO frame carrying an EncryptedExtensions message sets `new_data`, and
@@ -312,5 +315,193 @@ example : Harmless {} ⟨true, .rtt1, 0, 6, [4, 0, 0, 2, 0, 0]⟩ := by
     Bytes.slice, recordRaises, TlsMsgs.handleRecord] at hm
   subst hm
   rfl
+
+/-! ### the header-protection keys the dissector reads are those `set_tls_decryptors` derived (adapter `Tls.hp`)
+
+`Tls.ver` is stamped with `quic_version` before the first and after every turn of the coalescing loop (`feedPre_verOk`,
+`handleTurn_verOk`); a turn handles at most one packet (`Lemmas.QuicDissect.extract_pkts_le_one`) and nothing inside
+`decrypt_packet` moves the stamp or the version (`decryptPacket_keeps`), so every `set_tls_decryptors` call runs in a
+stamped state, where `after_tls_hp_exact` / `after_tls_hp_unchanged` apply. -/
+
+section Hp
+open TLX.Quic.Session
+
+/-- the adapter's stamp: the parser state carries the session's `quic_version` -/
+def VerOk (s : St Tls) : Prop := s.tls.ver = s.version
+
+/-- a step that touches neither the stamp nor the version -/
+structure KeepsVer (s s' : St Tls) : Prop where
+  ver : s'.tls.ver = s.tls.ver
+  version : s'.version = s.version
+
+theorem KeepsVer.refl (s : St Tls) : KeepsVer s s := ⟨rfl, rfl⟩
+theorem KeepsVer.trans {a b c : St Tls} (h1 : KeepsVer a b) (h2 : KeepsVer b c) : KeepsVer a c :=
+  ⟨h2.1.trans h1.1, h2.2.trans h1.2⟩
+theorem KeepsVer.ok {a b : St Tls} (h : KeepsVer a b) (ha : VerOk a) : VerOk b := by
+  unfold VerOk at *; rw [h.1, h.2, ha]
+
+variable (H : Crypto.Prims) (Pc : Cipher.Prims) (kl : List Keylog.Key)
+
+theorem tlsUpdate_ver (t : Tls) (c : CryptoIn) : (tlsUpdate t c).1.ver = t.ver := by
+  unfold tlsUpdate; split <;> rfl
+
+theorem installGroups_keeps (s : St Tls) (sel : SuiteSel) (kg : KeyGroups) : KeepsVer s (installGroups s sel kg) := by
+  unfold installGroups; repeat' split
+  all_goals exact ⟨rfl, rfl⟩
+
+theorem setTlsDecryptors_keeps (s : St Tls) (cr cs : Bytes) :
+    KeepsVer s (setTlsDecryptors (params H Pc kl) s cr cs).1 := by
+  unfold setTlsDecryptors
+  split
+  · exact ⟨rfl, rfl⟩
+  · split
+    · exact ⟨rfl, rfl⟩
+    · exact ⟨(installGroups_keeps _ _ _).1, (installGroups_keeps _ _ _).2⟩
+
+theorem afterTls_keeps (s : St Tls) : KeepsVer s (afterTls (params H Pc kl) s).1 := by
+  unfold afterTls
+  split
+  · split
+    · rename_i _ _ cr cs _ _
+      have h := setTlsDecryptors_keeps H Pc kl s cr cs
+      split
+      · rename_i heq; rw [heq] at h; exact h
+      · rename_i heq; rw [heq] at h; exact ⟨h.1, h.2⟩
+    · exact ⟨rfl, rfl⟩
+  · exact KeepsVer.refl s
+
+theorem handleCrypto_keeps (s : St Tls) (p : Pkt) (f : Frame.Parsed) (c : CryptoIn) :
+    KeepsVer s (handleCrypto (params H Pc kl) s p f c).1 := by
+  unfold handleCrypto
+  have hu : ((params H Pc kl).tlsUpdate s.tls c).1.ver = s.tls.ver := tlsUpdate_ver s.tls c
+  split
+  · rename_i t e heq; rw [heq] at hu; exact ⟨hu, rfl⟩
+  · rename_i t heq; rw [heq] at hu
+    have h := afterTls_keeps H Pc kl { s with tls := t }
+    split
+    · rename_i heq2; rw [heq2] at h; exact ⟨h.1.trans hu, h.2⟩
+    · rename_i heq2; rw [heq2] at h; exact ⟨h.1.trans hu, h.2⟩
+
+theorem handleFrame_keeps (s : St Tls) (p : Pkt) (f : Frame.Parsed) :
+    KeepsVer s (handleFrame (params H Pc kl) s p f).1 := by
+  unfold handleFrame
+  split
+  · exact handleCrypto_keeps H Pc kl s p _ _
+  · exact ⟨rfl, rfl⟩
+  · split <;> exact ⟨rfl, rfl⟩
+  · exact KeepsVer.refl s
+
+theorem handleFrames_keeps (s : St Tls) (p : Pkt) (fs : List Frame.Parsed) :
+    KeepsVer s (handleFrames (params H Pc kl) s p fs).1 := by
+  induction fs generalizing s with
+  | nil => exact KeepsVer.refl s
+  | cons f fs ih =>
+    unfold handleFrames
+    have h := handleFrame_keeps H Pc kl s p f
+    split
+    · rename_i heq; rw [heq] at h; exact h
+    · rename_i heq; rw [heq] at h; exact h.trans (ih _)
+
+theorem getFullPn_keeps (s : St Tls) (p : Pkt) : KeepsVer s (getFullPn s p).1 := by
+  unfold getFullPn
+  repeat' split
+  all_goals first
+    | exact KeepsVer.refl s
+    | (unfold pnStore; split <;> exact ⟨rfl, rfl⟩)
+
+theorem checkKeyEpoch_keeps (s : St Tls) (ph : Option Nat) (srv : Bool) :
+    KeepsVer s (checkKeyEpoch (params H Pc kl) s ph srv).1 := by
+  unfold checkKeyEpoch extendGens flipEpoch
+  repeat' split
+  all_goals exact ⟨rfl, rfl⟩
+
+theorem selectDecryptor_keeps (s : St Tls) (p : Pkt) : KeepsVer s (selectDecryptor (params H Pc kl) s p).1 := by
+  unfold selectDecryptor
+  have h := checkKeyEpoch_keeps H Pc kl s p.keyPhase p.isServer
+  repeat' split
+  all_goals first
+    | exact KeepsVer.refl s
+    | (rename_i heq; rw [heq] at h; exact h)
+
+theorem decryptRest_keeps (s : St Tls) (p : Pkt) (d? : Option Dec) :
+    KeepsVer s (decryptRest (params H Pc kl) s p d?).1 := by
+  unfold decryptRest
+  have h := getFullPn_keeps s p
+  split
+  · rename_i heq; rw [heq] at h; exact h
+  · rename_i s1 pn heq; rw [heq] at h
+    repeat' split
+    all_goals first
+      | exact h
+      | exact h.trans (handleFrames_keeps H Pc kl _ _ _)
+
+theorem decryptPacket_keeps (s : St Tls) (p : Pkt) : KeepsVer s (decryptPacket (params H Pc kl) s p).1 := by
+  unfold decryptPacket
+  have h := selectDecryptor_keeps H Pc kl s p
+  split
+  · rename_i heq; rw [heq] at h; exact h
+  · rename_i heq; rw [heq] at h; exact h.trans (decryptRest_keeps H Pc kl _ _ _)
+
+/-! the stamp is (re)established before the first and after every turn of the coalescing loop -/
+
+theorem feedPre_verOk (P : Params Tls) (s : St Tls) (dcid : Bytes) (v : Version) : VerOk (feedPre H P s dcid v) := rfl
+
+theorem handleTurn_verOk (P : Params Tls) (x : LoopSt) (pkts : List Pkt) (hx : VerOk x.1) : VerOk (handleTurn P x pkts).1 := by
+  unfold handleTurn
+  split
+  · exact hx
+  · rfl
+
+/-- In a stamped state, when `handle_crypto_frame` finds `new_data` set and `set_tls_decryptors` derives keys, the
+    header-protection keys the dissector will read are those of the SAME `dev_quic_keys` result `k` whose packet keys
+    went into the Handshake / Application / Early decryptors, and `new_data` is cleared. -/
+theorem after_tls_hp_exact (s : St Tls) (hv : VerOk s) (cr cs : Bytes) (sel : SuiteSel) (k : KeySchedule.QuicKeys)
+    (hn : s.tls.msgs.newData = true) (hcr : s.tls.msgs.clientRandom = some cr) (hcs : s.tls.msgs.ciphersuite = some cs)
+    (hsel : selectSuite cs = some sel) (hk : devQuic H kl sel s.version cr = .ok k) :
+    (afterTls (params H Pc kl) s).2 = none ∧
+    (afterTls (params H Pc kl) s).1.tls.hp = s.tls.hp.withTls k ∧
+    (afterTls (params H Pc kl) s).1.tls.msgs.newData = false ∧
+    (afterTls (params H Pc kl) s).1.decHandshake =
+      some { alg := sel.alg, server := some (dirOf k.serverHs), client := dirOf k.clientHs } ∧
+    (afterTls (params H Pc kl) s).1.decApp =
+      some [{ alg := sel.alg, server := some (dirOf k.serverApp), client := dirOf k.clientApp,
+              serverSec := k.serverAppSec, clientSec := k.clientAppSec }] ∧
+    (afterTls (params H Pc kl) s).1.decEarly =
+      match k.clientEarly with
+      | some e => some { alg := sel.alg, server := none, client := dirOf e }
+      | none => s.decEarly := by
+  unfold VerOk at hv
+  have e1 : (params H Pc kl).tlsNewData s.tls = true := hn
+  have e2 : (params H Pc kl).tlsClientRandom s.tls = some cr := hcr
+  have e3 : (params H Pc kl).tlsCiphersuite s.tls = some cs := hcs
+  have e4 : (params H Pc kl).devQuicKeys sel s.version cr = .ok (groupsOf k) := by
+    show (devQuic H kl sel s.version cr).map groupsOf = _
+    rw [hk]; rfl
+  unfold afterTls
+  simp only [e1, if_true, e2, e3, setTlsDecryptors, hsel, e4]
+  cases hke : k.clientEarly <;>
+    simp [installGroups, groupsOf, hke, params, tlsClearNewData, hcr, hcs, hsel, hv, hk, AppKeys.toDec]
+
+/-- … and when the derivation raises (missing / undecodable key-log lines) or the suite is unknown, neither the
+    decryptors nor the header-protection keys change. -/
+theorem after_tls_hp_unchanged (s : St Tls) (cr cs : Bytes)
+    (hcr : s.tls.msgs.clientRandom = some cr) (hcs : s.tls.msgs.ciphersuite = some cs)
+    (hbad : selectSuite cs = none ∨ ∃ sel e, selectSuite cs = some sel ∧ devQuic H kl sel s.version cr = .error e) :
+    (afterTls (params H Pc kl) s).1.tls.hp = s.tls.hp ∧
+    (afterTls (params H Pc kl) s).1.decHandshake = s.decHandshake ∧
+    (afterTls (params H Pc kl) s).1.decApp = s.decApp ∧ (afterTls (params H Pc kl) s).1.decEarly = s.decEarly := by
+  have e2 : (params H Pc kl).tlsClientRandom s.tls = some cr := hcr
+  have e3 : (params H Pc kl).tlsCiphersuite s.tls = some cs := hcs
+  unfold afterTls
+  split
+  · rcases hbad with hsel | ⟨sel, e, hsel, hk⟩
+    · simp [setTlsDecryptors, hsel, params, tlsClearNewData, hcr, hcs]
+    · have e4 : (params H Pc kl).devQuicKeys sel s.version cr = .error e := by
+        show (devQuic H kl sel s.version cr).map groupsOf = _
+        rw [hk]; rfl
+      simp [e2, e3, setTlsDecryptors, hsel, e4]
+  · exact ⟨rfl, rfl, rfl, rfl⟩
+
+end Hp
 
 end TLX.Props.C02Pipeline
